@@ -255,3 +255,34 @@ def run(ctx):
         else:
             r.ok(f'{name}: exact on all {n} basis bits, 0 and ~0 (mask/shift/or expression, bitwise linear)', func=name, loc=rets[0].loc)
     r.require_min(2)
+    # ---------------- R11e same verdicts once the magic is accepted
+    r = ctx.rule('R11e', 'metadata query: after the magic is accepted the return values of the opposite-endian paths equal those of the native paths',
+                 'an extra plausibility test in the swapped branch rejects opposite-endian fragments whose native image is accepted')
+    from ..paths import enumerate_paths
+    gm = P.fn('liberasurecode_get_fragment_metadata')
+    nat, swp = {}, {}
+    for p in enumerate_paths(P, gm):
+        T = [(pr, a, b) for pr, a, b, w, i in p.truths()]
+        magic = [(pr, a, b) for pr, a, b in T if a.endswith('.magic') or a.endswith('.magic)')]
+        is_nat = any(pr == 'eq' and a == '*arg0.magic' for pr, a, b in magic)
+        is_swp = any(pr == 'eq' and 'bswap' in a and '*arg0.magic' in a for pr, a, b in magic)
+        if is_nat:
+            nat.setdefault(p.ret, []).append(p)
+        elif is_swp:
+            swp.setdefault(p.ret, []).append(p)
+    if not nat or not swp:
+        r.undecided('native / swapped paths', msg=f'paths after an accepted magic: native {len(nat)}, swapped {len(swp)}')
+    else:
+        extra = sorted(set(swp) - set(nat), key=str)
+        missing = sorted(set(nat) - set(swp), key=str)
+        if extra or missing:
+            what = (f'returns {extra} only for opposite-endian headers' if extra else f'returns {missing} only for native headers')
+            pth = (swp[extra[0]][0] if extra else nat[missing[0]][0])
+            conds = [(pr, a[-40:], b[-30:]) for pr, a, b, w, i in pth.truths()][-3:]
+            r.fail('verdicts of native and swapped paths', func=gm.name, sig=what[:90], loc=gm.mod.src,
+                   msg=f'liberasurecode_get_fragment_metadata {what} (last conditions on such a path: {conds}): the two byte orders are not treated alike')
+        else:
+            r.ok(f'native and swapped paths return the same set of values {sorted(nat, key=str)}', func=gm.name, loc=gm.mod.src,
+                 facts={'native_paths': sum(map(len, nat.values())), 'swapped_paths': sum(map(len, swp.values()))})
+    r.require_min(1)
+    ctx.borrow('c10', ['R10d'], 'both byte orders verify checksums with the same two CRC functions')
